@@ -177,7 +177,7 @@ def gallina_bytes(b):
 
 def run(ctx):
     ctx.level = "proof"
-    proved = vlib.prove(ctx, ["Properties_C19.v"], facts=["base64"])
+    proved = vlib.prove(ctx, ["Properties_C19.v"], facts=["base64", "cred"])
     ctx.log("proofs:", "ok" if proved else "BROKEN: " + getattr(ctx, "broken_obligation", "?"))
     ctx.cov["rule"] = ("proof: Properties_C19.v over Base64Model with tables regenerated from base64.c; "
                        "correspondence: same case lines through /repo's base64.c (ASan, exact-size buffers) and the "
@@ -263,6 +263,7 @@ def run(ctx):
             if bad:
                 ctx.violation("extracted oracle disagrees with vm_compute on %d sample cases" % bad,
                               {"obligation": "extraction cross-check"}, found_input=False)
+    armor_phase(ctx)
     # verdict
     if direct_fail:
         l, o, why = direct_fail[0]
@@ -282,6 +283,81 @@ def run(ctx):
                       found_input=False)
 
 
+WS = b" \t\n\v\f\r"
+ALPHA = b"ABCDEFGHIJKLMNOPQRSTUVWXYZabcdefghijklmnopqrstuvwxyz0123456789+/"
+
+
+def armored_wellformed(s):
+    """None if s is not  whitespace* MUNGE: b64 : tail ; else True/False: is ALL the text between the prefix and the LAST
+    ':' well-formed base64 (alphabet + ignorable whitespace, padding only at the end, count a multiple of 4)"""
+    t = s.lstrip(WS)
+    if not t.startswith(b"MUNGE:") or b":" not in t[6:]:
+        return None
+    body = t[6:t.rindex(b":")]
+    core = bytes(c for c in body if c not in WS)
+    st = core.rstrip(b"=")
+    npad = len(core) - len(st)
+    return all(c in ALPHA for c in st) and npad <= 2 and len(core) % 4 == 0
+
+
+def armor_phase(ctx):
+    """the armor around the base64 text, on the live daemon (ASan) and the extracted dec_process: strings of hostile.
+    armor_strings; the clause 'rejects ... misplaced or miscounted padding or data after padding' evaluated directly:
+    an armored string whose text between the prefix and the last suffix is not well-formed base64 must be answered with
+    EMUNGE_BAD_CRED, never decoded"""
+    import rig, credcorr, hostile
+    try:
+        exe, orc = credcorr.build_all(ctx)
+    except RuntimeError as e:
+        ctx.violation(str(e), {"obligation": "build (armor phase)"}, found_input=False)
+        return
+    cr = credcorr.CredRig(ctx, exe, orc, tag="c19armor")
+    if not cr.ok:
+        ctx.violation("daemon does not start", {"obligation": "start"}, found_input=False)
+        return
+    direct, mism = [], []
+    import re as _re
+    bad_cred = int(_re.search(r"Definition e_bad_cred\s*:\s*N\s*:=\s*(\d+)", open(os.path.join(vlib.COQ, "gen", "GenCred.v")).read()).group(1))
+    try:
+        r, diff = cr.encode_both(data=b"armor-phase payload", cipher=4, mac=5, zip_=0)
+        if r is None or r["error_num"] != 0:
+            ctx.violation("no credential could be minted for the armor phase", {"obligation": "mint"}, found_input=False)
+            return
+        items = hostile.armor_strings(ctx, r["data"])
+        dist = ctx.cov.setdefault("input_distribution", {})
+        for cls, s in items:
+            ctx.count(("armor", s))
+            dist[cls] = dist.get(cls, 0) + 1
+            d, m, diff = cr.decode_both(s)
+            wf = armored_wellformed(s)
+            if d is None:
+                direct.append((cls, s, "no reply from the daemon"))
+            elif wf is False and not (d["error_num"] == bad_cred and d["data_len"] == 0):
+                direct.append((cls, s, "text between the prefix and the last suffix is not well-formed base64 but the daemon "
+                               "answers error %d %r with %d payload bytes" % (d["error_num"], d["error_str"], d["data_len"])))
+            elif wf is True and cls in ("armor/valid", "armor/valid-ws") and d["error_num"] not in (0, 17):
+                direct.append((cls, s, "well-formed armor around a valid credential rejected: error %d %r" % (d["error_num"], d["error_str"])))
+            elif diff:
+                mism.append((cls, s, diff))
+    finally:
+        rc, rep = cr.stop()
+    kinds, frames = hostile.summarize_report(rep)
+    ctx.log("armor phase: %d strings, %d direct failures, %d mismatches" % (len(items), len(direct), len(mism)))
+    if kinds:
+        ctx.violation("sanitizer report from munged on armored strings [%s at %s]" % (kinds[0], " <- ".join("%s %s:%d" % fr for fr in frames[:3])),
+                      {"obligation": "C19 decode write bound (dec_unarmor)", "sanitizer": kinds, "frames": frames,
+                       "strings_hex": [s.hex() for _, s in items[:400]]})
+    if direct:
+        cls, s, why = direct[0]
+        ctx.violation("armored string [%s] %r: %s (%d failing strings)" % (cls, s[:80], why, len(direct)),
+                      {"cred_hex": s.hex(), "class": cls, "why": why, "n_failing": len(direct)})
+    elif mism:
+        cls, s, diff = mism[0]
+        ctx.violation("dec_unarmor: model and daemon disagree on %d armored strings (first [%s] %r: %s); the clause evaluated "
+                      "directly holds on all" % (len(mism), cls, s[:80], diff),
+                      {"obligation": "correspondence CredModel.dec_unarmor ~ dec.c", "cred_hex": s.hex(), "diff": diff}, found_input=False)
+
+
 def parse_line(l):
     f = l.split()
     unh = lambda h: b"" if h == "-" else bytes.fromhex(h)
@@ -290,3 +366,6 @@ def parse_line(l):
     if f[0] in ("S", "T"):
         return (f[0], [unh(x) for x in f[1].split(",")])
     return ("L", int(f[1]))
+
+
+MANIFEST["level"] = (MANIFEST["level"][0], MANIFEST["level"][1] + ' Three further theorems cover the armor around the base64 text (dec.c dec_unarmor: what is decoded is ALL the text between the prefix and the LAST suffix; a refused text gives EMUNGE_BAD_CRED; a suffix inside the text is undecodable), tied by ~500 armored strings through the live ASan daemon and the extracted dec_process with the clause evaluated directly.', MANIFEST["level"][2])
